@@ -321,6 +321,31 @@ fn random_limit(w: &mut World, sc: &Scenario, pool: &str, a_to_b: bool) -> u128 
     }
 }
 
+/// Executes `ix` on a copy of the world and returns the user's token deltas (A, B) and the decoded events,
+/// or None when it fails: used to choose caller bounds right at / one off the realised amounts.
+fn dry_run(w: &World, sc: &Scenario, owner: &str, ix: &crate::world::Ix) -> Option<(i128, i128, Vec<serde_json::Value>)> {
+    let mut c = w.clone();
+    let p = &w.pools[&sc.pool];
+    let (ma, mb) = (p.mint_a.clone(), p.mint_b.clone());
+    let (a0, b0) = (c.token_amount(&c.utok(owner, &ma)) as i128, c.token_amount(&c.utok(owner, &mb)) as i128);
+    let ex = c.exec_raw(&ix.instruction());
+    if !ex.ok() {
+        return None;
+    }
+    let evs = crate::world::decode_events(&c, &ex);
+    Some((c.token_amount(&c.utok(owner, &ma)) as i128 - a0, c.token_amount(&c.utok(owner, &mb)) as i128 - b0, evs))
+}
+/// a bound at, one below or one above the realised amount, or vacuous
+fn near(w: &mut World, realised: u64, vacuous: u64) -> u64 {
+    match w.rng.gen_range(0..5) {
+        0 => realised,
+        1 => realised.saturating_sub(1),
+        2 => realised.saturating_add(1),
+        3 => realised,
+        _ => vacuous,
+    }
+}
+
 pub fn random_step(w: &mut World, sc: &Scenario, rec: &mut Recorder) {
     let pool = sc.pool.clone();
     let pos = open_positions(w);
@@ -364,7 +389,14 @@ pub fn random_step(w: &mut World, sc: &Scenario, rec: &mut Recorder) {
         0..=24 => {
             // increase
             let liq = if w.rng.gen_bool(0.3) { pick(w, &[1000u128, 1_000_000, 1_000_000_000, 1u128 << 40]) } else { log_uniform(w, sc.liq_bits.0, sc.liq_bits.1) };
-            let ix = w.ix_increase(&p, &owner, liq, u64::MAX, u64::MAX, v2);
+            let mut ix = w.ix_increase(&p, &owner, liq, u64::MAX, u64::MAX, v2);
+            if w.rng.gen_bool(0.4) {
+                // caller maxima right at / one off what the deposit really costs
+                if let Some((da, db, _)) = dry_run(w, sc, &owner, &ix) {
+                    let (ma, mb) = (near(w, (-da).max(0) as u64, u64::MAX), near(w, (-db).max(0) as u64, u64::MAX));
+                    ix = w.ix_increase(&p, &owner, liq, ma, mb, v2);
+                }
+            }
             rec.exec(w, &ix, false, json!(null));
         }
         25..=36 => {
@@ -375,7 +407,14 @@ pub fn random_step(w: &mut World, sc: &Scenario, rec: &mut Recorder) {
                 2 => (w.rng.gen::<u128>() % (l + 1)).max(1),
                 _ => l.min(1),
             };
-            let ix = w.ix_decrease(&p, &owner, liq, 0, 0, v2);
+            let mut ix = w.ix_decrease(&p, &owner, liq, 0, 0, v2);
+            if w.rng.gen_bool(0.4) {
+                // caller minima right at / one off what the withdrawal really returns
+                if let Some((da, db, _)) = dry_run(w, sc, &owner, &ix) {
+                    let (ma, mb) = (near(w, da.max(0) as u64, 0), near(w, db.max(0) as u64, 0));
+                    ix = w.ix_decrease(&p, &owner, liq, ma, mb, v2);
+                }
+            }
             rec.exec(w, &ix, false, json!(null));
         }
         37..=41 => {
@@ -404,7 +443,22 @@ pub fn random_step(w: &mut World, sc: &Scenario, rec: &mut Recorder) {
                     let min_b = pick(w, &[0u64, 0, 0, 1, 1000]);
                     let max_a = pick(w, &[u64::MAX, u64::MAX, u64::MAX, 1_000_000, 1_000_000_000_000]);
                     let max_b = pick(w, &[u64::MAX, u64::MAX, u64::MAX, 1_000_000, 1_000_000_000_000]);
-                    let ix = w.ix_reposition(&p, &owner, a, b, nl, min_a, min_b, max_a, max_b);
+                    let mut ix = w.ix_reposition(&p, &owner, a, b, nl, min_a, min_b, max_a, max_b);
+                    if w.rng.gen_bool(0.6) {
+                        // bounds right at / one off the realised amounts: minima against the old range's proceeds,
+                        // maxima against the new range's cost plus the transfer fee the owner pays
+                        let loose = w.ix_reposition(&p, &owner, a, b, nl, 0, 0, u64::MAX, u64::MAX);
+                        if let Some((_, _, evs)) = dry_run(w, sc, &owner, &loose) {
+                            if let Some(v) = evs.iter().find(|v| v["ev"] == "LiquidityRepositioned") {
+                                let g = |k: &str| -> u64 { v[k].as_u64().or_else(|| v[k].as_str().and_then(|s| s.parse().ok())).unwrap_or(0) };
+                                let need_a = g("newA").saturating_add(if v["fromOwnerA"] == true { g("feeA") } else { 0 });
+                                let need_b = g("newB").saturating_add(if v["fromOwnerB"] == true { g("feeB") } else { 0 });
+                                let (xa, xb) = (near(w, need_a, u64::MAX), near(w, need_b, u64::MAX));
+                                let (na, nb) = (near(w, g("oldA"), 0), near(w, g("oldB"), 0));
+                                ix = w.ix_reposition(&p, &owner, a, b, nl, na, nb, xa, xb);
+                            }
+                        }
+                    }
                     rec.exec(w, &ix, false, json!(null));
                 }
             }
